@@ -8,12 +8,15 @@ HANDLERS = ["h_c04.ml"]
 
 PROVED = ["C04_tile_shape", "C04_tile_element", "C04_repeat_flat", "C04_repeat_axis_on_domain", "C04_roll_axis", "C04_roll_flat",
           "C04_pad", "C04_take_axis_on_domain", "C04_take_flat_on_domain", "C04_resize", "C04_concatenate_axis_on_domain",
-          "C04_concatenate_flat", "C04_tril_triu", "C04_tril_triu_1d", "C04_tri_eye", "C04_diagflat"]
+          "C04_concatenate_flat", "C04_tril_triu", "C04_tril_triu_1d", "C04_tri_eye", "C04_diagflat",
+          "C04_sliding_window_axis", "C04_expand_axis", "C04_compress_axis_on_domain"]
+PARTIAL = ["C04_diagonal_matrix_partial"]
 REFUTED = ["C04_repeat_negative_axis_refuted", "C04_roll_repeated_axis_refuted", "C04_take_negative_axis_refuted",
            "C04_take_negative_index_refuted", "C04_compress_negative_axis_refuted", "C04_concatenate_negative_axis_refuted",
            "C04_diagonal_negative_offset_refuted", "C04_arange_negative_count_refuted", "C04_linspace_num1_endpoint_refuted"]
-CORRESPONDENCE_ONLY = ["roll with a tuple of axes", "repeat with per-element counts", "compress", "expand", "stack", "hstack", "vstack",
-                       "dstack", "column_stack", "split", "sliding_window", "diagonal", "where", "arange", "linspace",
+CORRESPONDENCE_ONLY = ["roll with a tuple of axes", "repeat with per-element counts", "compress with axis=None", "expand with several axes", "stack", "hstack",
+                       "vstack", "dstack", "column_stack", "split", "sliding_window with several axes or axis=None",
+                       "diagonal of arrays of dim > 2 or axes other than (0,1)", "where", "arange", "linspace",
                        "full/zeros/ones(_like)", "identity"]
 
 CLAIM = dict(
@@ -21,7 +24,8 @@ CLAIM = dict(
           "non-fill element is in bounds): tile (shape for all arguments; element i = a[i mod shape]); repeat with a scalar count (axis=None "
           "and 0 <= axis < dim); roll with one axis (negative axes, any shift sign and magnitude) and axis=None; pad (documented widths "
           "[before.., after..], constant fill); take (0 <= axis < dim or axis=None, entries in range); resize (nearest neighbour); concatenate "
-          "(0 <= axis < dim and axis=None); tril / triu (dim >= 2 and the 1-d form), tri, eye, diagflat. REFUTED with Coq witnesses and listed "
+          "(0 <= axis < dim and axis=None); tril / triu (dim >= 2 and the 1-d form), tri, eye, diagflat; sliding_window and expand along one axis "
+          "(negative axes included); compress along 0 <= axis < dim; PARTIAL: diagonal for matrices with axes (0,1) and offset >= 0. REFUTED with Coq witnesses and listed "
           "as known findings: negative axis in repeat / take / compress / concatenate (and stack), negative entries in take's index list, roll "
           "with an axis listed twice, diagonal with a negative offset, arange of an empty range, linspace(num=1, endpoint). "
           "CORRESPONDENCE-ONLY (modelled + specified + compared with the C++ on the grid, no element theorem): " + ", ".join(CORRESPONDENCE_ONLY) +
@@ -37,7 +41,7 @@ RULE = ("per routine: small-scope box (source dim 1..3, extents 1..3; thorough d
         "std::vector / std::array / run-time tuple / compile-time constants, eager level (array::X), index level "
         "(index::shape_X / index::X on vector / array / static_vector containers). non-trivial = source of dim >= 2 with an "
         "extent > 1; distinct = distinct case lines")
-THEOREM_STATUS = {"proved": PROVED, "partial": [], "refuted": REFUTED}
+THEOREM_STATUS = {"proved": PROVED, "partial": PARTIAL, "refuted": REFUTED}
 ASSUMPTIONS = ["extents are positive; repeats/reps >= 1; arithmetic in Z (extents far below 2^31 in every generated case)"]
 
 _here = os.path.dirname(os.path.abspath(__file__))
@@ -116,7 +120,8 @@ def gen_cases(rng, tier):
         add("tile", "tile_ix S:%s %s %s %s" % (["vec", "arr", "sv"][n % 3], L(s), L(r), L(rand_index(rng, dst))))
     for r in CT_LISTS_POS:
         for s in take(rng, shapes, 6): add("tile", "tile S:ct %s %s" % (A(s), L(r)))
-    for s in big: add("tile", "tile S:vec %s %s" % (A(s), L(rng.choice(repss))))
+    for s in big + [(2, 2, 2, 2), (2, 1, 2, 3), (3, 2, 1, 2)]:
+        for r in take(rng, repss, 3): add("tile", "tile S:vec %s %s" % (A(s), L(r)))
 
     # ---------------- repeat
     for n, s in enumerate(take(rng, shapes, 30 * B) + big):
